@@ -21,13 +21,17 @@ RULE = ('seeded random grammars of the supported class (statement / expression /
         'match_tree / write_tokens call of the first sequence; a wide stream adds grammars outside the class (rule '
         'derivation and match/write correspondence only); exotic stream = fixed witnesses of the listed findings; '
         'non-trivial = distinct (grammar, sentence) whose reconstruction re-inserted >= 1 filtered token and used >= 1 '
-        'inlined match node')
+        'inlined match node; relex-safe stream = one case per generated grammar (per-grammar condition vs observed H_relex '
+        'of every tree); shared-alias / term_subs-family = fixed systematic families run by the oracle on one Reconstructor '
+        'in every rotation of the inputs; idc-ascii = is_id_continue on the 128 ASCII characters')
 TRUSTED_BASE = ['the parser side is a specification (derivation trees of parser.rules, ChildFilter/ExpandSingleChild shape), '
                 'not a model of the LALR/Earley engines (that is C01-C03); match_tree is modelled as an arbitrary function '
                 'returning supported matches - each recorded match is validated against the model grammar by the harness',
                 'name numbering, snapshots of Tree/Token objects and of meta.orig_expansion taken by run-time wrapping of '
                 'Reconstructor.match_tree and WriteTokensTransformer.transform',
-                'is_id_continue is modelled for ASCII only (generated texts are ASCII)']
+                'is_id_continue is modelled for ASCII only (generated texts are ASCII)',
+                'translator/gen_recons.py templates pin the shape of the mirrored functions; m_cp models string and [..]+ '
+                'terminals only (compared with Python re on every recorded text)']
 ASSUMPTIONS = ['maybe_placeholders=False, term_subs empty, no postlex, no templates, rule names do not collide with '
                'attributes of WriteTokensTransformer', 'C19_text holds under H_relex (joined text lexes back to the written '
                'tokens); H_relex is refuted in general (F12)']
